@@ -23,7 +23,8 @@ use std::net::{IpAddr, Ipv4Addr, Ipv6Addr};
 use std::str::FromStr;
 use std::sync::Mutex;
 use bcder::encode::Values;
-use bcder::{encode, Mode};
+use bcder::{encode, BitString, Mode};
+use bytes::Bytes;
 use rayon::prelude::*;
 use rpki::ca::provisioning::RequestResourceLimit;
 use rpki::repository::cert::Overclaim;
@@ -340,13 +341,14 @@ fn analyze(dom: &Dom, r: &[Blk], want: u32) -> Vec<(&'static str, String)> {
 
 //------------ construction paths ----------------------------------------------------
 
-const AS_PATHS: &[&str] = &["from_iter", "builder", "text", "text_ranges", "serde", "der_ext", "der_inner"];
-const IP_PATHS: &[&str] = &["from_iter", "builder", "text_auto", "text_ranges", "serde", "der_ext", "der_family", "der_nofamily", "typed_from_iter"];
+const AS_PATHS: &[&str] = &["from_iter", "builder", "text", "text_ranges", "serde", "der_ext", "der_inner", "der_ext_ber", "der_inner_ber"];
+const IP_PATHS: &[&str] = &["from_iter", "builder", "text_auto", "text_ranges", "serde", "der_ext", "der_family", "der_nofamily", "typed_from_iter",
+    "der_ext_ber", "der_family_ber", "der_nofamily_ber"];
 
 #[derive(Clone, Copy, PartialEq, Eq)]
 enum Class { Api, Text, Der }
 
-fn path_class(p: usize) -> Class { if p < 2 { Class::Api } else if p < 5 || p == 8 { Class::Text } else { Class::Der } }
+fn path_class(kind: Kind, p: usize) -> Class { if p < 2 { Class::Api } else if p < 5 || (kind.is_ip() && p == 8) { Class::Text } else { Class::Der } }
 
 fn join_txt(seq: &[&ABlock], idiomatic: bool) -> String {
     let v: Vec<&str> = seq.iter().map(|b| if idiomatic { b.txt_a.as_str() } else { b.txt_b.as_str() }).collect();
@@ -372,13 +374,14 @@ fn build(dom: &Dom, path: usize, seq: &[&ABlock]) -> Result<Val, String> {
             2 => AsBlocks::from_str(&join_txt(seq, true)).map_err(|e| e.to_string())?,
             3 => AsBlocks::from_str(&join_txt(seq, false)).map_err(|e| e.to_string())?,
             4 => serde_json::from_str::<AsBlocks>(&serde_json::to_string(&join_txt(seq, true)).unwrap()).map_err(|e| e.to_string())?,
-            5 => {
+            // the same octets through the DER and the BER decoding mode (valid DER is valid BER)
+            5 | 7 => {
                 let items: Vec<der::AsItem> = seq.iter().map(|b| if b.lo == b.hi { der::AsItem::Id(b.lo) } else { der::AsItem::Range(b.lo, b.hi) }).collect();
                 let ext = der::as_identifiers(Some(&items));
-                let res = Mode::Der.decode(ext.as_slice(), |cons| AsResources::take_from(cons)).map_err(|e| e.to_string())?;
+                let res = (if path == 5 { Mode::Der } else { Mode::Ber }).decode(ext.as_slice(), |cons| AsResources::take_from(cons)).map_err(|e| e.to_string())?;
                 res.to_blocks().map_err(|e| e.to_string())?
             }
-            6 => Mode::Der.decode(items_der(seq, false).as_slice(), |cons| AsBlocks::take_from(cons)).map_err(|e| e.to_string())?,
+            6 | 8 => (if path == 6 { Mode::Der } else { Mode::Ber }).decode(items_der(seq, false).as_slice(), |cons| AsBlocks::take_from(cons)).map_err(|e| e.to_string())?,
             _ => unreachable!(),
         })),
         _ => {
@@ -403,17 +406,17 @@ fn build(dom: &Dom, path: usize, seq: &[&ABlock]) -> Result<Val, String> {
                     if k == Kind::V4 { (*serde_json::from_str::<Ipv4Blocks>(&js).map_err(|e| e.to_string())?).clone() }
                     else { (*serde_json::from_str::<Ipv6Blocks>(&js).map_err(|e| e.to_string())?).clone() }
                 }
-                5 => {
+                5 | 9 => {
                     let items: Vec<der::IpItem> = seq.iter().map(|b| match prefix_len(b.lo, b.hi, k.width()) {
                         Some(l) => der::IpItem::Prefix(b.lo, l), None => der::IpItem::Range(b.lo, b.hi) }).collect();
                     let ext = der::ip_addr_blocks(if k == Kind::V4 { [0, 1] } else { [0, 2] }, k.width() as u8, Some(&items));
-                    let (v4, v6) = Mode::Der.decode(ext.as_slice(), |cons| IpResources::take_families_from(cons)).map_err(|e| e.to_string())?;
+                    let (v4, v6) = (if path == 5 { Mode::Der } else { Mode::Ber }).decode(ext.as_slice(), |cons| IpResources::take_families_from(cons)).map_err(|e| e.to_string())?;
                     let (mine, other) = if k == Kind::V4 { (v4, v6) } else { (v6, v4) };
                     if other.is_some() { return Err("decoder reported the other address family".into()) }
                     mine.ok_or("family missing after decoding")?.to_blocks().map_err(|e| e.to_string())?
                 }
-                6 => Mode::Der.decode(items_der(seq, false).as_slice(), |cons| IpBlocks::take_from_with_family(cons, fam)).map_err(|e| e.to_string())?,
-                7 => Mode::Der.decode(items_der(seq, true).as_slice(), |cons| IpBlocks::take_from(cons)).map_err(|e| e.to_string())?,
+                6 | 10 => (if path == 6 { Mode::Der } else { Mode::Ber }).decode(items_der(seq, false).as_slice(), |cons| IpBlocks::take_from_with_family(cons, fam)).map_err(|e| e.to_string())?,
+                7 | 11 => (if path == 7 { Mode::Der } else { Mode::Ber }).decode(items_der(seq, true).as_slice(), |cons| IpBlocks::take_from(cons)).map_err(|e| e.to_string())?,
                 8 => {
                     // FromIterator of the family-typed blocks (which only exist as parsed text)
                     if k == Kind::V4 {
@@ -465,7 +468,7 @@ fn construct(ctx: &Ctx, dom: &Dom, max_len: u32) -> BTreeMap<u32, Val> {
             if !as_given { nontriv += 1 }
             for (p, pname) in paths.iter().enumerate() {
                 evals += 1;
-                let class = path_class(p);
+                let class = path_class(dom.kind, p);
                 let res = guard(|| build(dom, p, &seq));
                 match res {
                     Err(panic) => {
@@ -881,6 +884,212 @@ fn queries(ctx: &Ctx, dom: &Dom, have: &[Option<Val>]) {
     sp.done(true, &format!("{} states x ({} values + {} blocks + {} prefixes + round trips)", states.len(), pts.len(), qblocks.len(), roa.len()));
 }
 
+//------------ BER-only spellings of the RFC 3779 bit strings ----------------------------------------
+
+/// Zero-padded content of an IPAddress BIT STRING: the first `len` bits of a family-unit address.
+struct Bits { bytes: Vec<u8>, unused: u8 }
+
+fn bits_of(x: u128, len: u8, width: u32) -> Bits {
+    let left = if width == 32 { x << 96 } else { x };
+    let kept = if len == 0 { 0 } else { left & (u128::MAX << (128 - len as u32)) };
+    let n = (len as usize).div_ceil(8);
+    Bits { bytes: kept.to_be_bytes()[..n].to_vec(), unused: (n * 8 - len as usize) as u8 }
+}
+
+/// TLV with a chosen length form: 0 = minimal, 1 = `81 nn`, 2 = `82 00 nn`, 3 = indefinite (constructed only).
+fn ber_tlv(tag: u8, content: &[u8], form: u8) -> Vec<u8> {
+    let n = content.len();
+    let mut out = vec![tag];
+    match form {
+        0 => out.extend(der::len_octets(n)),
+        1 => { assert!(n < 256); out.extend([0x81, n as u8]) }
+        2 => { assert!(n < 65536); out.extend([0x82, (n >> 8) as u8, n as u8]) }
+        _ => { out.push(0x80); out.extend_from_slice(content); out.extend([0, 0]); return out }
+    }
+    out.extend_from_slice(content);
+    out
+}
+
+/// One way to write a bit string down: the unused bits of the last octet := pattern, the
+/// length form, and primitive / constructed with one / constructed with two segments.
+#[derive(Clone, Copy, PartialEq, Eq)]
+struct Spell { pattern: u8, form: u8, constructed: u8 }
+
+const CANON: Spell = Spell { pattern: 0, form: 0, constructed: 0 };
+
+fn spell_bits(b: &Bits, s: Spell) -> Vec<u8> {
+    let mut bytes = b.bytes.clone();
+    if let Some(l) = bytes.last_mut() { *l |= s.pattern }
+    let prim = |unused: u8, by: &[u8], form: u8| { let mut c = vec![unused]; c.extend_from_slice(by); ber_tlv(der::T_BITSTR, &c, form) };
+    match s.constructed {
+        0 => prim(b.unused, &bytes, s.form),
+        1 => ber_tlv(der::T_BITSTR | 0x20, &prim(b.unused, &bytes, 0), s.form),
+        _ => { let k = bytes.len() - 1; let mut c = prim(0, &bytes[..k], 0); c.extend(prim(b.unused, &bytes[k..], 0)); ber_tlv(der::T_BITSTR | 0x20, &c, s.form) }
+    }
+}
+
+fn ones(b: &Bits) -> u8 { if b.unused == 0 { 0 } else { (1u8 << b.unused) - 1 } }
+
+/// All spellings of one bit string: every pattern of the unused bits, long length forms,
+/// constructed forms (the latter with all-zero and all-one unused bits).
+fn spellings(b: &Bits) -> Vec<Spell> {
+    let top = ones(b);
+    let mut v = vec![CANON];
+    for p in 1..=top { v.push(Spell { pattern: p, form: 0, constructed: 0 }) }
+    for form in [1, 2] { v.push(Spell { pattern: 0, form, constructed: 0 }); if top > 0 { v.push(Spell { pattern: top, form, constructed: 0 }) } }
+    let segs: &[u8] = if b.bytes.len() >= 2 { &[1, 2] } else { &[1] };
+    for &c in segs { for form in [0, 3] { v.push(Spell { pattern: 0, form, constructed: c }); if top > 0 { v.push(Spell { pattern: top, form, constructed: c }) } } }
+    v
+}
+
+/// Every spelling of one alphabet block as an IPAddressOrRange item; `.1` = uses non-zero unused bits.
+fn item_spellings(dom: &Dom, b: &ABlock) -> Vec<(Vec<u8>, bool)> {
+    let w = dom.kind.width();
+    let mut out = Vec::new();
+    if let Some(l) = prefix_len(b.lo, b.hi, w) {
+        let bits = bits_of(b.lo, l, w);
+        for s in spellings(&bits) { out.push((spell_bits(&bits, s), s.pattern != 0)) }
+    }
+    let zeros = if b.lo == 0 { w } else { b.lo.trailing_zeros().min(w) };
+    let tones = (!b.hi).trailing_zeros().min(w);
+    let (mn, mx) = (bits_of(b.lo, (w - zeros) as u8, w), bits_of(b.hi, (w - tones) as u8, w));
+    let pair = |a: Spell, c: Spell, form: u8| ber_tlv(der::T_SEQ, &der::cat(&[spell_bits(&mn, a), spell_bits(&mx, c)]), form);
+    for s in spellings(&mn) { out.push((pair(s, CANON, 0), s.pattern != 0)) }
+    for s in spellings(&mx) { if s != CANON { out.push((pair(CANON, s, 0), s.pattern != 0)) } }
+    let both = (Spell { pattern: ones(&mn), form: 0, constructed: 0 }, Spell { pattern: ones(&mx), form: 0, constructed: 0 });
+    for form in [0, 1, 2, 3] {
+        if form != 0 { out.push((pair(CANON, CANON, form), false)) }
+        if both.0.pattern != 0 || both.1.pattern != 0 { out.push((pair(both.0, both.1, form), true)) }
+    }
+    out
+}
+
+const BER_DECODERS: &[&str] = &["take_from_with_family", "take_from", "take_families_from"];
+
+fn ber_decode(kind: Kind, dec: usize, mode: Mode, items_seq: &[u8], form: u8) -> Result<Val, String> {
+    let fam = if kind == Kind::V4 { AddressFamily::Ipv4 } else { AddressFamily::Ipv6 };
+    match dec {
+        0 => mode.decode(items_seq, |c| IpBlocks::take_from_with_family(c, fam)).map(Val::Ip).map_err(|e| e.to_string()),
+        1 => mode.decode(items_seq, |c| IpBlocks::take_from(c)).map(Val::Ip).map_err(|e| e.to_string()),
+        _ => {
+            let afi: [u8; 2] = if kind == Kind::V4 { [0, 1] } else { [0, 2] };
+            let ext = ber_tlv(der::T_SEQ, &ber_tlv(der::T_SEQ, &der::cat(&[der::octets(&afi), items_seq.to_vec()]), form), form);
+            let (v4, v6) = mode.decode(ext.as_slice(), |c| IpResources::take_families_from(c)).map_err(|e| e.to_string())?;
+            let mine = if kind == Kind::V4 { v4 } else { v6 };
+            mine.ok_or("family missing after decoding".to_string())?.to_blocks().map(Val::Ip).map_err(|e| e.to_string())
+        }
+    }
+}
+
+/// The decode-mode dimension: every alphabet block in every BER spelling of its bit strings,
+/// alone and next to every other block, through the public decoders in BER and DER mode.
+fn ber_spellings(ctx: &Ctx, dom: &Dom) {
+    let sp = ctx.space(&format!("{}.ber", dom.name),
+        "every proper alphabet block x every spelling of its IPAddress / IPAddressRange bit strings (unused bits of the last octet set to every pattern, for the prefix and for each range end; long and indefinite length forms of the bit string, the range and the enclosing sequences; constructed bit strings with one and two segments) x 3 public decoders x {BER, DER} mode, plus every ordered pair (block with all-one unused bits, other block) in BER mode; accepted => the stored value must be literally the model's representation of the zero-padded spelling, rejected => counted only; non-trivial = spellings that are not the DER spelling");
+    let k = dom.kind;
+    let proper: Vec<&ABlock> = dom.blocks.iter().filter(|b| !b.inverted).collect();
+    let pfx = format!("C03.{}.ber", dom.name);
+    let judge = |oc: &mut BTreeMap<&'static str, u64>, r: Result<Result<Val, String>, String>, want: u32, mode: Mode, dec: &str, octets: &[u8]| {
+        let wit = || format!("octets={} mode={} decoder={dec}", rpki_verif::hex(octets), if mode == Mode::Ber { "ber" } else { "der" });
+        match r {
+            Err(p) => ctx.fail(&format!("{pfx}.{dec}.panic"), wit(), p),
+            Ok(Err(_)) => { *oc.entry(if mode == Mode::Ber { "ber-mode:rejected" } else { "der-mode:rejected" }).or_insert(0) += 1; }
+            Ok(Ok(v)) => {
+                *oc.entry(if mode == Mode::Ber { "ber-mode:accepted" } else { "der-mode:accepted" }).or_insert(0) += 1;
+                if !same(&v, &dom.canon[want as usize]) {
+                    for (law, d) in analyze(dom, &repr_of(&v), want) { ctx.fail(&format!("{pfx}.{dec}.{law}"), wit(), d) }
+                }
+            }
+        }
+    };
+    proper.par_iter().for_each(|b| {
+        let mut oc: BTreeMap<&'static str, u64> = BTreeMap::new();
+        let (mut evals, mut nontriv) = (0u64, 0u64);
+        let items = item_spellings(dom, b);
+        for (n, (item, patterned)) in items.iter().enumerate() {
+            // the enclosing sequences in minimal form for every item, in every other form for the first (DER) item and the patterned ones
+            let forms: &[u8] = if n == 0 || *patterned { &[0, 1, 2, 3] } else { &[0] };
+            for &form in forms {
+                let seq = ber_tlv(der::T_SEQ, item, form);
+                if !(n == 0 && form == 0) { nontriv += 1 }
+                for (dec, dname) in BER_DECODERS.iter().enumerate() {
+                    for mode in [Mode::Ber, Mode::Der] {
+                        evals += 1;
+                        judge(&mut oc, guard(|| ber_decode(k, dec, mode, &seq, form)), b.mask, mode, dname, &seq);
+                    }
+                }
+            }
+            if *patterned {
+                for o in &proper {
+                    for first in [true, false] {
+                        let other = if prefix_len(o.lo, o.hi, k.width()).is_some() { &o.der_a } else { &o.der_b };
+                        let seq = if first { der::seq(&[item.clone(), other.clone()]) } else { der::seq(&[other.clone(), item.clone()]) };
+                        evals += 1; nontriv += 1;
+                        judge(&mut oc, guard(|| ber_decode(k, 0, Mode::Ber, &seq, 0)), b.mask | o.mask, Mode::Ber, BER_DECODERS[0], &seq);
+                    }
+                }
+            }
+        }
+        sp.evals(evals); sp.nontrivial(nontriv); sp.merge_outcomes(&oc);
+    });
+    sp.set("blocks", json!(proper.len()));
+    sp.set("decoders", json!(BER_DECODERS));
+    sp.sample_str(|| { let b = proper.iter().find(|b| prefix_len(b.lo, b.hi, k.width()).map(|l| l % 8 != 0).unwrap_or(false)).unwrap_or(&proper[0]);
+        let it = item_spellings(dom, b); format!("{}: block {} has {} spellings, e.g. {}", dom.name, b.txt_a, it.len(), it.iter().filter(|x| x.1).take(2).map(|x| rpki_verif::hex(&x.0)).collect::<Vec<_>>().join(" ")) });
+    sp.done(true, &format!("all spellings of all {} proper blocks x {} decoders x 2 modes + all ordered pairs with a patterned block", proper.len(), BER_DECODERS.len()));
+}
+
+/// `Prefix::from_bit_string` / `Prefix::take_from` on hand-built bit strings of every length.
+fn bit_strings(ctx: &Ctx) {
+    let sp = ctx.space("bitstring",
+        "Prefix from bit strings: octet count 0..=16 x leading octets {00, ff, a5} x every value of the last octet x every count of unused bits 0..=7, through Prefix::from_bit_string(BitString::new(..)) and through Prefix::take_from on the encoded TLV in BER and DER mode; model: length = 8n - unused, address = the octets left-aligned with the unused bits cleared; non-trivial = bit strings whose unused bits are not all zero");
+    let cases: Vec<(usize, u8)> = (0..=16usize).flat_map(|n| [0x00u8, 0xff, 0xa5].into_iter().map(move |f| (n, f))).collect();
+    cases.par_iter().for_each(|&(n, fill)| {
+        let mut oc: BTreeMap<&'static str, u64> = BTreeMap::new();
+        let (mut evals, mut nontriv) = (0u64, 0u64);
+        for last in 0..=255u8 { for unused in 0..=7u8 {
+            if n == 0 && (last != 0 || unused != 0 || fill != 0) { continue }
+            let mut bytes = vec![fill; n]; if n > 0 { bytes[n - 1] = last }
+            let len = (8 * n) as u8 - unused;
+            let mut a = [0u8; 16]; a[..n].copy_from_slice(&bytes);
+            let raw = u128::from_be_bytes(a);
+            let want = if len == 0 { 0 } else { raw & (u128::MAX << (128 - len as u32)) };
+            let host = if len == 128 { 0 } else { u128::MAX >> len };
+            let dirty = raw != want;
+            if dirty { nontriv += 1 }
+            let wit = |how: &str| format!("unused={unused} octets={} via={how}", rpki_verif::hex(&bytes));
+            let verify = |p: Prefix| -> Result<(), String> {
+                let ok = p.addr_len() == len && p.min().to_bits() == want && p.addr().to_bits() == want && p.max().to_bits() == want | host
+                    && p.range() == (addr(want), addr(want | host)) && p == Prefix::new(addr(want), len);
+                if ok { Ok(()) } else { Err(format!("decoded as {:#x}/{} covering {:#x}-{:#x}; expected {:#x}/{}", p.addr().to_bits(), p.addr_len(), p.min().to_bits(), p.max().to_bits(), want, len)) }
+            };
+            evals += 1;
+            match guard(|| Prefix::from_bit_string(&BitString::new(unused, Bytes::from(bytes.clone())))) {
+                Err(p) => ctx.fail("C03.bitstring.from_bit_string.panic", wit("from_bit_string"), p),
+                Ok(Err(e)) => ctx.fail("C03.bitstring.from_bit_string.accept", wit("from_bit_string"), format!("a bit string of at most 128 bits was refused: {e}")),
+                Ok(Ok(p)) => { *oc.entry(if dirty { "hand-built:unused-bits-set" } else { "hand-built:unused-bits-zero" }).or_insert(0) += 1;
+                    if let Err(d) = verify(p) { ctx.fail("C03.bitstring.from_bit_string.set", wit("from_bit_string"), d) } }
+            }
+            let mut content = vec![unused]; content.extend_from_slice(&bytes);
+            let tlv = der::tlv(der::T_BITSTR, &content);
+            for mode in [Mode::Ber, Mode::Der] {
+                evals += 1;
+                let how = if mode == Mode::Ber { "take_from/ber" } else { "take_from/der" };
+                match guard(|| mode.decode(tlv.as_slice(), |c| Prefix::take_from(c))) {
+                    Err(p) => ctx.fail("C03.bitstring.take_from.panic", wit(how), p),
+                    Ok(Err(e)) => { if dirty { *oc.entry(if mode == Mode::Ber { "ber-mode:rejected" } else { "der-mode:rejected" }).or_insert(0) += 1 }
+                        else { ctx.fail("C03.bitstring.take_from.accept", wit(how), format!("a DER bit string of at most 128 bits was refused: {e}")) } }
+                    Ok(Ok(p)) => { *oc.entry(if mode == Mode::Ber { "ber-mode:accepted" } else { "der-mode:accepted" }).or_insert(0) += 1;
+                        if let Err(d) = verify(p) { ctx.fail("C03.bitstring.take_from.set", wit(how), d) } }
+                }
+            }
+        } }
+        sp.evals(evals); sp.nontrivial(nontriv); sp.merge_outcomes(&oc);
+    });
+    sp.sample_str(|| "03 02 01 0b = 10.0.0.0/7 written with its unused bit set".to_string());
+    sp.done(true, "all octet counts 0..=16 x 3 fills x 256 last octets x 8 unused-bit counts x 3 entry points");
+}
+
 //------------ ResourceSet: product of the three families ------------------------------------------
 
 struct Rs3<'a> { a: &'a Dom, v4: &'a Dom, v6: &'a Dom }
@@ -1083,6 +1292,7 @@ fn boundary(kind: Kind, lows: u128, highs: u128) -> Vec<u128> {
 fn main() {
     let ctx = Ctx::new("C03", "model_checking");
     ctx.assume("the property statement is the specification; a block handed to an API constructor with min > max is outside its quantifier (observed, not judged), the same block arriving as text or DER must be rejected");
+    ctx.assume("a BER spelling of an RFC 3779 value (non-zero unused bits, long or indefinite lengths, constructed bit strings) may be refused; if it is accepted it must denote the same set as the DER spelling");
     ctx.assume("std's Ipv4Addr/Ipv6Addr text form, serde_json and the independent DER encoder (engine::der) are trusted");
     let thorough = ctx.tier.is_thorough();
     let n = ctx.tier.pick(3, 4);
@@ -1102,7 +1312,9 @@ fn main() {
         let seeds = construct(&ctx, dom, n);
         let res = closure(&ctx, dom, seeds);
         queries(&ctx, dom, &res.have);
+        if dom.kind.is_ip() { ber_spellings(&ctx, dom) }
     }
+    bit_strings(&ctx);
     if thorough {
         // wider boundary domain, construction only (2^15 subsets are too many for the pairwise closure)
         for (name, kind) in [("as14", Kind::As), ("v4x14", Kind::V4), ("v6x14", Kind::V6)] {
